@@ -304,7 +304,7 @@ func init() {
 			return s
 		},
 		Run:  c08Run,
-		Rule: "iterables: []int, []string, []interface{}, [n]int, *[]int, *[n]int, arrays whose elements are all zero values, array literal, map[string]int, map[int]string, *map, hash literal, range/between/until, custom Iterator, groupBy, each at every length 0..3 (4 thorough); nil / nil slice / nil map / nil pointer to a slice, array, map or Iterator (render nothing), nil pointer to a struct, int or pointer and int/string/struct/func (must be an error). bodies: every sequence of <=3 (4 thorough) statements over 19 items (emit literal/value/key, if+break, if+continue, emit-then-break, nested-if break, bare break/continue, return, let+emit, inner loop plain/with break/with continue/silent, fn literal, inner loops over an Iterator / a slice / nil that re-use the outer loop's variable names) in two tag layouts (one statement per tag; adjacent code tags merged) and 4 placements. Oracle: a reference interpreter over the body gives the expected text for ordered iterables; for maps every iteration starts with a sentinel+key, the observed visiting order must be a permutation (prefix when a break fires) of the entries and the reference run in that order must reproduce the output exactly; maps are additionally rendered under every forced rotation of Go's map iteration order (runtime hook). Helper blocks: break / continue (bare, inside if, inside nested if with text) inside the block of a block helper called (emitting or silently, nested 1-2 deep) in the loop body, every hit position: the helper receives the block's text up to the control statement, the call's own result is kept and the loop is broken / continued there. Nil and falsy elements: []interface{} / [3]interface{} / map with nil elements in every position (bound as nil, also when an enclosing loop or variable uses the same names), Iterators and slices yielding \"\", false, 0 and empty HTML (visited like any other element). Control-free bodies are also checked by unrolling (body rendered per element with let-bound loop variables). Non-trivial: length>=2 and body contains a control statement or inner loop.",
+		Rule: "iterables: []int, []string, []interface{}, [n]int, *[]int, *[n]int, arrays whose elements are all zero values, array literal, map[string]int, map[int]string, *map, hash literal, range/between/until, custom Iterator, groupBy, each at every length 0..3 (4 thorough); nil / nil slice / nil map / nil pointer to a slice, array, map or Iterator (render nothing), nil pointer to a struct, int or pointer and int/string/struct/func (must be an error). bodies: every sequence of <=3 (4 thorough) statements over 19 items (emit literal/value/key, if+break, if+continue, emit-then-break, nested-if break, bare break/continue, return, let+emit, inner loop plain/with break/with continue/silent, fn literal, inner loops over an Iterator / a slice / nil that re-use the outer loop's variable names) in two tag layouts (one statement per tag; adjacent code tags merged) and 4 placements. Oracle: a reference interpreter over the body gives the expected text for ordered iterables; for maps every iteration starts with a sentinel+key, the observed visiting order must be a permutation (prefix when a break fires) of the entries and the reference run in that order must reproduce the output exactly; maps are additionally rendered under every forced rotation of Go's map iteration order (runtime hook). Helper blocks: break / continue (bare, inside if, inside nested if with text) inside the block of a block helper called (emitting or silently, nested 1-2 deep) in the loop body, every hit position: the helper receives the block's text up to the control statement, the call's own result is kept and the loop is broken / continued there. Nil and falsy elements: []interface{} / [3]interface{} / map with nil elements in every position (bound as nil, also when an enclosing loop or variable uses the same names), Iterators and slices yielding \"\", false, 0 and empty HTML (visited like any other element). Reruns: loops whose iterable is a literal / range built from an outer loop variable or a parameter, run several times in one execution (nested 2-3 deep, in a function called repeatedly, over a slice modified between runs): every run visits its current iterable. Control-free bodies are also checked by unrolling (body rendered per element with let-bound loop variables). Non-trivial: length>=2 and body contains a control statement or inner loop.",
 		Bound: func(th bool) string {
 			if th {
 				return "lengths 0..4, body sequences <=4"
@@ -599,6 +599,26 @@ func c08Special(t *engine.T) {
 	}
 	c08HelperBlocks(t, mk)
 	c08NilAndFalsyElements(t, mk)
+	// a loop node that runs more than once in one execution visits its CURRENT iterable each time
+	reruns := []struct{ name, src, want string }{
+		{"array literal built from the outer loop variable", `<%= for (x) in si3 { %><%= for (y) in [x, x + 1] { %><%= y %>,<% } %>;<% } %>`, "10,11,;20,21,;30,31,;"},
+		{"hash literal built from the outer loop variable", `<%= for (x) in si2 { %><%= for (k, y) in {"k": x} { %><%= k %>=<%= y %>,<% } %>;<% } %>`, "k=10,;k=20,;"},
+		{"range built from the outer loop variable", `<%= for (x) in [1, 2, 3] { %><%= for (y) in range(x, x + 1) { %><%= y %>,<% } %>;<% } %>`, "1,2,;2,3,;3,4,;"},
+		{"literal inside a function called twice", `<% let f = fn(a) { %><%= for (y) in [a, a + 1] { %><%= y %>,<% } %><% } %><%= f(1) %>|<%= f(5) %>|<%= f(1) %>`, "1,2,|5,6,|1,2,"},
+		{"outer variable reassigned between two runs of one loop", `<% let f = fn(lst) { %><%= for (y) in lst { %><%= y %>,<% } %><% } %><%= f([1]) %>|<%= f([2, 3]) %>|<%= f([]) %>|<%= f(["a"]) %>`, "1,|2,3,||a,"},
+		{"slice variable whose elements change between runs", `<% let a = [1, 2] %><%= for (r) in [0, 1] { %><%= for (y) in a { %><%= y %>,<% } %><% a[0] = 9 %>;<% } %>`, "1,2,;9,2,;"},
+		{"literal of three nested levels", `<%= for (x) in [1, 2] { %><%= for (y) in [x * 10, x * 10 + 1] { %><%= for (z) in [y, y + 100] { %><%= z %>,<% } %><% } %>;<% } %>`, "10,110,11,111,;20,120,21,121,;"},
+	}
+	for _, c := range reruns {
+		c := c
+		t.Case("rerun "+c.name+" "+q(c.src), true, func() (string, *engine.Fail) {
+			out, err := Render(c.src, mk())
+			if err != nil || out != c.want {
+				return "", engine.Failf("mismatch", "expected %q, got %q / %v", c.want, out, err)
+			}
+			return "rerun", nil
+		})
+	}
 }
 
 type c08ListIter struct {
